@@ -62,7 +62,18 @@ impl<T: Write + Send + 'static> Worker<T> {
             let handle_result = self.handle_try_recv(&try_recv_result);
             worker_state = handle_result?;
         }
-        self.writer.flush()?;
+        let flushed = self.writer.flush();
+        // A failed flush must not hide that the worker was asked to shut down
+        // (or lost all its senders): otherwise the worker would go back to
+        // waiting for messages, never release the writer, and the guard's
+        // `drop` would run into its timeout.
+        if matches!(
+            worker_state,
+            WorkerState::Shutdown | WorkerState::Disconnected
+        ) {
+            return Ok(worker_state);
+        }
+        flushed?;
         Ok(worker_state)
     }
 
